@@ -175,13 +175,14 @@ def rf_next_law(adj, state, p, sis):
 def gen_step_case(rng):
     simname = rng.choice(["basic_discrete_SIR", "basic_discrete_SIS"])
     spec = cases.gen_graph(rng, 2, 5, family=rng.choice(["path", "star", "cycle", "tree", "gnp", "twocomp", "complete"]),
-                           label=rng.choice(cases.LABEL_SCHEMES))
+                           label=rng.choice(cases.LABEL_SCHEMES), directed=rng.random() < 0.3)
     if len(spec["edges"]) > 6:
         spec["edges"] = spec["edges"][:6]
     n = len(spec["nodes"])
     idx = list(range(n))
     rng.shuffle(idx)
-    I0 = idx[:rng.choice([1, 1, 2])]
+    # sometimes most of the population is infectious at the start
+    I0 = idx[:rng.choice([1, 1, 2, max(1, n - 1), max(1, (n // 2) + 1)])]
     R0 = idx[len(I0):len(I0) + 1] if (simname.endswith("SIR") and rng.random() < 0.3) else []
     return {"sim": simname, "graph": spec, "p": rng.choice([0.2, 0.5, 0.8, 0.0, 1.0, 0.3]), "I0": I0, "R0": R0,
             "tmin": rng.choice([0, 5, -3]), "full": rng.random() < 0.6}
@@ -433,7 +434,8 @@ def one_percolate(case):
 def run_one(family, rng, idx, tier):
     if family == "dsir":
         case = simcases.gen_case(rng, "discrete_SIR", nmax=12, buggify=False, allow_rho=False,
-                                 horizon=rng.choice(["inf", "default", "finite", "finite", "at_tmin"]))
+                                 horizon=rng.choice(["inf", "default", "finite", "finite", "at_tmin"]),
+                                 directed=rng.random() < 0.3)
         case["det_rule"] = True
         v = one_dsir(case)
         h = hashlib.sha256(repr((case["graph"], case["tabseed"], case["I0"], case["R0"], case["tmin"], case["tmax"], case["recovery_rule"])).encode())
